@@ -39,6 +39,14 @@ func encVal(r *vh.Rand) uint64 {
 	return val(r)
 }
 
+// upTo returns a value in [0, m].
+func upTo(r *vh.Rand, m uint64) uint64 {
+	if m == 1<<64-1 {
+		return r.U64()
+	}
+	return r.U64() % (m + 1)
+}
+
 func small(r *vh.Rand) uint64 {
 	if r.Chance(70) {
 		return uint64(r.Intn(100))
@@ -218,7 +226,7 @@ func frameBytes(r *vh.Rand) ([]byte, []fieldPos) {
 		if t == 0x24 {
 			switch r.Pick(50, 20, 20, 10) {
 			case 0:
-				v(r.U64() % (fs + 1))
+				v(upTo(r, fs))
 			case 1:
 				v(fs)
 			case 2:
@@ -274,7 +282,7 @@ func frameBytes(r *vh.Rand) ([]byte, []fieldPos) {
 		v(seq)
 		switch r.Pick(60, 20, 20) {
 		case 0:
-			v(r.U64() % (seq + 1))
+			v(upTo(r, seq))
 		case 1:
 			v(seq)
 		default:
@@ -407,7 +415,7 @@ func frameText(r *vh.Rand) string {
 		rs := uint64(0)
 		switch r.Pick(50, 30, 10, 10) {
 		case 1:
-			rs = r.U64() % (fs + 1)
+			rs = upTo(r, fs)
 		case 2:
 			rs = fs
 		case 3:
@@ -441,7 +449,7 @@ func frameText(r *vh.Rand) string {
 		return fmt.Sprintf("sblocked t=%s v=%d", st(), encVal(r))
 	case 15:
 		seq := encVal(r)
-		rpt := r.U64() % (seq + 1)
+		rpt := upTo(r, seq)
 		if r.Chance(10) {
 			rpt = encVal(r)
 		}
